@@ -1,5 +1,6 @@
 import Fv.Lemmas.CacheFrame
 import Fv.Lemmas.CacheIter
+import Fv.Lemmas.CacheIterStream
 import Fv.Props.C13
 /-
 C17 — iteration and snapshots enumerate exactly the live entries.
@@ -7,6 +8,10 @@ C17 — iteration and snapshots enumerate exactly the live entries.
 * `C17_cursor_exact`, `C17_cursor_fuel_ok`: the batching cursor of `Iter` / `IterStream`, for all
   shard counts, shard contents, batch sizes and key orders.
 * `C17_iter_exact`, `C17_iter_each_live_once`: `iter_with_batch_size` consumed to the end.
+* `C17_stream_exact`, `C17_stream_prefix`, `C17_stream_pending_only_when_locked`,
+  `C17_stream_each_live_once`: the async stream polled by hand while other parties hold shard write
+  locks at arbitrary moments (a refill future parked at its `read_async().await` and resumed later,
+  on the first refill, on a middle shard or on the last shard).
 * `C17_snapshot_iter_exact`, `C17_snapshot_iter_each_live_once`: `SnapshotIter` consumed to the end.
 * `C17_restore_roundtrip`, `C17_restore_fields`, `C17_restore_nodup`, `C17_restore_cost`,
   `C17_snapshot_restore_api`: `to_snapshot` followed by `build_from_snapshot`.
@@ -157,6 +162,120 @@ example : 0 < exCfg.nshards ∧ ((exState.flush exCfg nullOps { ord := [8, 4, 0,
 example : (exState.iterAll exCfg nullOps { ord := [8, 4, 0, 1] } 1 none).2 = [(8, 18), (0, 10), (1, 11)] := by decide
 example : (exState.iterAll exCfg nullOps { ord := [8, 4, 0, 1] } 3 none).2 = [(8, 18), (0, 10), (1, 11)] := by decide
 example : (exState.iterAll exCfg nullOps { ord := [] } 0 none).2 = [(0, 10), (8, 18), (1, 11)] := by decide
+
+/-! ### 3b. the async stream with a contended refill
+
+`streamPoll` is one `IterStream::poll_next` call; its `locked` argument says which shards' write
+locks are held by somebody else during that poll, so the refill future's `read_async().await`
+on such a shard is `Pending` and the future is parked (`StreamSt.inflight`) holding its own local
+cursor and the batch collected so far; the stream's cursor is taken over from the future when —
+and only when — the future completes (`streamAbsorb`). -/
+
+/-- THE STREAM WITH ARBITRARY PENDING / RESUME POINTS.  For every shard count, per-shard key order,
+    batch size `≥ 1`, map and time: poll the stream under ANY list `locks` of lock situations (every
+    poll may find any set of shards locked, so refills are parked and resumed at arbitrary points),
+    then poll with no lock held `n ≥ (number of live entries) + 1` times.  The stream reports its
+    end and has handed out exactly the live entries of `(range nshards).flatMap keysOf` in that
+    order — which is exactly what the uncontended cursor `iterDrive` yields: every live entry once,
+    none skipped, none twice, whatever the Pending / resume points were.  (The same fuel condition
+    as `C17_cursor_exact`: the key lists are together no longer than the map.) -/
+theorem C17_stream_exact (nshards batch : Nat) (keysOf : Nat → List Nat) (m : List (Nat × Entry)) (tti : Option Nat)
+    (now : Nat) (hb : 1 ≤ batch)
+    (hall : ((List.range nshards).flatMap keysOf).length ≤ m.length)
+    (locks : List (Nat → Bool)) (n : Nat)
+    (hn : (liveOf m now tti ((List.range nshards).flatMap keysOf)).length + 1 ≤ n) :
+    (streamRun nshards batch keysOf m now tti {} (locks ++ List.replicate n noLock) []).2 =
+      (liveOf m now tti ((List.range nshards).flatMap keysOf), true) ∧
+    (streamRun nshards batch keysOf m now tti {} (locks ++ List.replicate n noLock) []).2.1 =
+      (iterDrive nshards batch keysOf m tti (((List.range nshards).flatMap keysOf).length + 1) now none {} []).2 := by
+  have h := C17L.streamRun_exact nshards batch keysOf m now tti hall hb locks n hn
+  unfold C17L.allKeys at h
+  refine ⟨h, ?_⟩
+  rw [h, C17_cursor_exact nshards batch keysOf m tti now _ hb hall (Nat.le_refl _)]
+
+/-- at EVERY moment of a hand-polled stream (after any list of polls under any lock situations, ended
+    or not) the items handed out so far are a prefix of the live entries in cursor order: nothing
+    is yielded twice, nothing is skipped, and if the end has been reported nothing is missing -/
+theorem C17_stream_prefix (nshards batch : Nat) (keysOf : Nat → List Nat) (m : List (Nat × Entry)) (tti : Option Nat)
+    (now : Nat) (hb : 1 ≤ batch)
+    (hall : ((List.range nshards).flatMap keysOf).length ≤ m.length) (locks : List (Nat → Bool)) :
+    (∃ t, liveOf m now tti ((List.range nshards).flatMap keysOf) =
+        (streamRun nshards batch keysOf m now tti {} locks []).2.1 ++ t) ∧
+    ((streamRun nshards batch keysOf m now tti {} locks []).2.2 = true →
+      (streamRun nshards batch keysOf m now tti {} locks []).2.1 = liveOf m now tti ((List.range nshards).flatMap keysOf)) := by
+  have h := C17L.streamRun_spec nshards batch keysOf m now tti hall hb locks {} [] (C17L.SInv_init ..)
+  have hp := h.1.prefix
+  unfold C17L.allKeys at h hp
+  exact ⟨hp, h.2⟩
+
+/-- a poll returns `Pending` only while some shard is locked by somebody else: once the locks
+    are released the parked refill completes on the next poll (no lost progress) -/
+theorem C17_stream_pending_only_when_locked (nshards batch : Nat) (keysOf : Nat → List Nat) (m : List (Nat × Entry))
+    (tti : Option Nat) (now : Nat) (hb : 1 ≤ batch)
+    (hall : ((List.range nshards).flatMap keysOf).length ≤ m.length) (locks : List (Nat → Bool)) :
+    (streamPoll nshards batch keysOf m now tti noLock (streamRun nshards batch keysOf m now tti {} locks []).1).2 ≠ .pending := by
+  have h := C17L.streamRun_spec nshards batch keysOf m now tti hall hb locks {} [] (C17L.SInv_init ..)
+  exact C17L.streamPoll_noLock nshards batch keysOf m now tti _ _ hall hb h.1
+
+/-- `iter_stream_with_batch_size(batch)` (any batch, `0` clamped to 1) of the cache, polled under
+    arbitrary lock situations and then freely `n ≥ map size + 1` times: the flushed state is
+    returned unchanged, the stream has ended and yielded exactly what `iter_with_batch_size`
+    yields (`C17_iter_all`). -/
+theorem C17_stream_all (cfg : Cfg) (ops : PolicyOps P) (o : Oracle) (s : State P) (batch : Nat)
+    (locks : List (Nat → Bool)) (n : Nat) (hn : (s.flush cfg ops o).map.length + 1 ≤ n) :
+    s.streamAll cfg ops o batch locks n = (s.flush cfg ops o, (s.iterAll cfg ops o batch none).2, true) := by
+  have hf := C17_cursor_fuel_ok cfg (s.flush cfg ops o) o.ord
+  have hlen : (liveOf (s.flush cfg ops o).map (s.flush cfg ops o).now cfg.tti
+      ((List.range cfg.nshards).flatMap (fun i => (s.flush cfg ops o).shardKeys cfg o.ord i))).length ≤
+      ((List.range cfg.nshards).flatMap (fun i => (s.flush cfg ops o).shardKeys cfg o.ord i)).length := by
+    unfold liveOf; exact List.length_filterMap_le _ _
+  have h := (C17_stream_exact cfg.nshards (max batch 1) (fun i => (s.flush cfg ops o).shardKeys cfg o.ord i)
+    (s.flush cfg ops o).map cfg.tti (s.flush cfg ops o).now (Nat.le_max_right _ _) hf.1 locks n (by omega)).1
+  unfold State.streamAll
+  simp only [h, C17_iter_exact]
+
+/-- the contended stream yields every live entry exactly once with its current value, expired
+    ones omitted — whatever the hash order, the batch size and the Pending / resume points are -/
+theorem C17_stream_each_live_once (cfg : Cfg) (ops : PolicyOps P) (o : Oracle) (s : State P) (batch : Nat)
+    (locks : List (Nat → Bool)) (n : Nat) (hlen : (s.flush cfg ops o).map.length + 1 ≤ n)
+    (hn : 0 < cfg.nshards) (hwf : ((s.flush cfg ops o).map.map (·.1)).Nodup) :
+    (s.streamAll cfg ops o batch locks n).2.2 = true ∧
+    ((s.streamAll cfg ops o batch locks n).2.1.map (·.1)).Nodup ∧
+    ∀ k v, (k, v) ∈ (s.streamAll cfg ops o batch locks n).2.1 ↔
+      ∃ e, (k, e) ∈ (s.flush cfg ops o).map ∧ e.vid = v ∧
+        e.isExpired (s.flush cfg ops o).now cfg.tti = false := by
+  rw [C17_stream_all cfg ops o s batch locks n hlen]
+  exact ⟨rfl, C17_iter_each_live_once cfg ops o s batch hn hwf⟩
+
+
+def lockShard (j : Nat) : Nat → Bool := fun i => i == j
+
+-- non-vacuity / the three positions of a parked refill on `exMap` (4 shards: [8,4,0], [1], [], []; key 4 expired at 7).
+-- Pending on the FIRST refill (shard 0 locked before the first poll), resumed two polls later:
+example : (streamRun 4 2 exKeys exMap 7 none {} [lockShard 0, lockShard 0, noLock, noLock, noLock, noLock] []).2 =
+    ([(8, 18), (0, 10), (1, 11)], true) := by decide
+example : (streamPoll 4 2 exKeys exMap 7 none (lockShard 0) {}) = ({ inflight := some {} }, .pending) := by decide
+-- Pending on a MIDDLE shard: with batch 3 the refill future has already collected keys 8 and 0 of shard 0 in
+-- its local buffer when it is parked at locked shard 1; the stream's own cursor is still at the start
+example : (streamPoll 4 3 exKeys exMap 7 none (lockShard 1) {}) =
+    ({ cur := {}, inflight := some { shard := 1, seen := 0, buffer := [(8, 18), (0, 10)], finished := false } }, .pending) := by decide
+example : (streamRun 4 3 exKeys exMap 7 none {} [lockShard 1, lockShard 1, noLock, noLock, noLock, noLock] []).2 =
+    ([(8, 18), (0, 10), (1, 11)], true) := by decide
+-- ... and with batch 2: two items from shard 0 first, then the next refill is parked at shard 1
+example : (streamRun 4 2 exKeys exMap 7 none {} [noLock, noLock, lockShard 1, lockShard 1, noLock, noLock] []).2 =
+    ([(8, 18), (0, 10), (1, 11)], true) := by decide
+-- Pending on the LAST shard (empty, but its lock is still taken by the loop), batch larger than everything
+example : (streamRun 4 64 exKeys exMap 7 none {} [lockShard 3, lockShard 3, noLock, noLock, noLock, noLock] []).2 =
+    ([(8, 18), (0, 10), (1, 11)], true) := by decide
+example : (streamRun 4 64 exKeys exMap 7 none {} [lockShard 3, lockShard 3] []).2 = ([], false) := by decide
+-- what would go wrong if the parked future's cursor were NOT taken over on completion: the batch is read again
+example : (streamRun 4 1 exKeys exMap 7 none
+      ({ (streamRun 4 1 exKeys exMap 7 none {} [lockShard 0, noLock] []).1 with cur := {} }) [noLock] [(8, 18)]).2.1 =
+    [(8, 18), (8, 18)] := by decide
+example : 1 ≤ 2 ∧ ((List.range 4).flatMap exKeys).length ≤ exMap.length ∧
+    (liveOf exMap 7 none ((List.range 4).flatMap exKeys)).length + 1 ≤ 4 := by decide
+example : (exState.streamAll exCfg nullOps { ord := [8, 4, 0, 1] } 2 [lockShard 0, lockShard 1] 5).2 =
+    ([(8, 18), (0, 10), (1, 11)], true) := by decide
 
 /-! ### 4. `SnapshotIter` consumed to the end -/
 
@@ -485,6 +604,17 @@ theorem C17_snapshot_iter_each_live_once_reachable (cfg : Cfg) (ops : PolicyOps 
         e.isExpired (s.flush cfg ops o).now cfg.tti = false :=
   C17_snapshot_iter_each_live_once cfg ops o s hn (flush_nodup_of_reachable cfg ops p0 t0 o s hr)
 
+/-- `C17_stream_each_live_once` for every reachable state -/
+theorem C17_stream_each_live_once_reachable (cfg : Cfg) (ops : PolicyOps P) (p0 : P) (t0 : Nat) (o : Oracle)
+    (s : State P) (batch : Nat) (locks : List (Nat → Bool)) (n : Nat) (hr : Reachable cfg ops p0 t0 s)
+    (hlen : (s.flush cfg ops o).map.length + 1 ≤ n) (hn : 0 < cfg.nshards) :
+    (s.streamAll cfg ops o batch locks n).2.2 = true ∧
+    ((s.streamAll cfg ops o batch locks n).2.1.map (·.1)).Nodup ∧
+    ∀ k v, (k, v) ∈ (s.streamAll cfg ops o batch locks n).2.1 ↔
+      ∃ e, (k, e) ∈ (s.flush cfg ops o).map ∧ e.vid = v ∧
+        e.isExpired (s.flush cfg ops o).now cfg.tti = false :=
+  C17_stream_each_live_once cfg ops o s batch locks n hlen hn (flush_nodup_of_reachable cfg ops p0 t0 o s hr)
+
 -- non-vacuity: a reachable state with content (overwrite, removal, maintenance in its history), 4 shards
 def exReach : State Unit :=
   (run exCfg nullOps () (State.fresh exCfg () 7)
@@ -493,5 +623,7 @@ def exReach : State Unit :=
 
 example : Reachable exCfg nullOps () 7 exReach ∧ 0 < exCfg.nshards := ⟨⟨_, rfl⟩, by decide⟩
 example : (exReach.iterAll exCfg nullOps { ord := [8, 1] } 2 none).2 = [(8, 19), (1, 11)] := by decide
+example : (exReach.streamAll exCfg nullOps { ord := [8, 1] } 1 [lockShard 1, lockShard 0, lockShard 1] 3).2 =
+    ([(8, 19), (1, 11)], true) := by decide
 
 end Fv.Props.C17
